@@ -10,6 +10,7 @@ Two kinds of cases, one judge (coq/Corr/C19Judge.v):
 """
 import itertools
 import os
+import re
 
 from tie import c19_translate
 from tie.framework import g_bool, g_list, g_nat, g_opt, g_str, run_impl_parallel
@@ -21,9 +22,12 @@ RULE = ("mode cases: every valid local mode of <=4 flags (thorough: all 2304 val
         "order) x 45 path kinds (regular/dir/fifo with permission variants, symlinks, dangling symlink, missing "
         "with/without parent, below a regular file, below an unsearchable directory, read-only parent, /dev/null, /, "
         "~, ~/x, ., .., '', '-', trailing slash, a/../b) x {absolute, relative, ./relative} x 3 working directories, "
-        "run as uid nobody (permission bits effective) and a seeded quarter also as the invoking user; plus every "
+        "run as uid nobody (permission bits effective) and a seeded quarter also as the invoking user, half of the calls "
+        "as Path(p, mode=m) and half through the registered type path_type(m)(p); plus every "
         "string of <=2 characters over the flag alphabet + 2 foreign characters and seeded longer strings as "
-        "(mostly invalid) modes. cwd cases: seeded config trees. Distinct = distinct (flag set, c-count, probed fact "
+        "(mostly invalid) modes. cwd cases: seeded config trees (nested files in 7 directories, relative/absolute/detour "
+        "spellings, list files loadable and not loadable as YAML, missing/malformed files and broken values as failure "
+        "points) through parse_args(--cfg), parse_path, default_config_files, get_defaults, --mid <file>, --mid=<file>. Distinct = distinct (flag set, c-count, probed fact "
         "record, outcome) resp. distinct (entry point, tree, outcome); non-trivial = at least one flag resp. at "
         "least one nested file or path value.")
 TRUSTED = [
@@ -42,10 +46,39 @@ ASSUMPTIONS = [
     "config-tree fixtures contain no symlinks, so os.getcwd() after chdir equals normpath of the directory",
     "'~name' spellings and file:// prefixes are not generated",
     "no other thread changes the process working directory during a load",
-    "list files (List[path] given as a file) have >= 2 lines and their folded content is not itself an existing path",
+    "list files (List[path] given as a file) have >= 2 lines and their folded content is not itself an existing path; "
+    "a list file is not loadable as YAML exactly when its first line starts with '@' (the only such lines generated)",
 ]
 EXHAUSTIVE = {"quick": False, "thorough": False}
 FINDING_CLASSES = {1: "not-file-missing", 2: "fc-fifo", 3: "cc-through-file", 4: "list-file-relative"}
+
+# Repairs that have landed in /repo. The models are written once with the patched lines of fixes/C19-<key>.patch
+# selected by a `fixes` record (coq/Model/C19PathMode.v); a landed repair switches the model to the patched lines and
+# removes the finding class from the guard (C19_mode_exact_any_repairs / C19_relative_follows_config_repaired), so a
+# recurrence of the defect is then a VIOLATION inside the guard. Source of truth: a line
+#     fixed: property=C19 <commit> key=<key> ...
+# in known_findings/C19.txt (i.e. the lead only turns `open:` into `fixed:` there). FIXED_OVERRIDE, if not None,
+# is the set of landed keys instead; so is the environment variable C19_FIXED (comma separated), for trial runs.
+FIXED_OVERRIDE = None
+_FX_FIELD = {"not-file-missing": "fx_F", "fc-fifo": "fx_fifo", "cc-through-file": "fx_cc", "list-file-relative": "fx_lf"}
+
+
+def fixed_keys():
+    if os.environ.get("C19_FIXED") is not None:  # testing aid: C19_FIXED=key,key (or empty) with VERIF_REPO=<patched tree>
+        return {k for k in os.environ["C19_FIXED"].split(",") if k}
+    if FIXED_OVERRIDE is not None:
+        return set(FIXED_OVERRIDE)
+    keys = set()
+    path = os.path.join(os.path.dirname(os.path.dirname(os.path.dirname(os.path.abspath(__file__)))), "known_findings", "C19.txt")
+    if os.path.exists(path):
+        for line in open(path):
+            m = re.match(r"fixed:\s+property=C19\b.*?\bkey=(\S+)", line.strip())
+            if m and m.group(1) in _FX_FIELD:
+                keys.add(m.group(1))
+    return keys
+
+
+JUDGE = "judge_fx {| %s |}" % "; ".join("%s := %s" % (f, g_bool(k in fixed_keys())) for k, f in _FX_FIELD.items())
 
 CAN_DROP = os.getuid() == 0
 
@@ -89,7 +122,9 @@ def gen_mode_cases(rng, tier):
             l = list(m)
             rng.shuffle(l)  # the code must not depend on the order of the flags
             base = {"k": "mode", "mode": "".join(l), "kind": k,
-                    "spell": rng.choice(["abs", "rel", "dotrel"]), "cwd": rng.choice(["w", "wd", "ro"])}
+                    "spell": rng.choice(["abs", "rel", "dotrel"]), "cwd": rng.choice(["w", "wd", "ro"]),
+                    # half of the calls go through the registered path type: path_type(mode)(given)
+                    "via": rng.choice(["path", "type"])}
             if CAN_DROP:
                 cases.append(dict(base, uid="nobody"))
                 if tier == "thorough" or rng.random() < 0.25:
@@ -107,7 +142,8 @@ def gen_mode_cases(rng, tier):
     for s in strings:
         # u/s modes are outside the statement for real paths: with "-" only the mode language is exercised
         kind = "dash" if ("u" in s or "s" in s) else rng.choice(["file", "dir", "missing", "fifo"])
-        cases.append({"k": "mode", "mode": s, "kind": kind, "spell": "rel", "cwd": "w", "uid": "root"})
+        cases.append({"k": "mode", "mode": s, "kind": kind, "spell": "rel", "cwd": "w", "uid": "root",
+                      "via": rng.choice(["path", "type"])})
     return cases
 
 
@@ -132,6 +168,9 @@ def rel_spelling(rng, target, from_dir):
 def gen_cwd_case(rng, tier):
     files = ["x/file.txt", "x/y/other.txt", "b/data.txt", "a/data.txt", "b/sub/data.txt", "run/data.txt",
              "deep/er/est/data.txt", "data.txt"]
+    # a first line "@at.txt" makes the list file unloadable as YAML ('@' cannot start a token): _check_type then takes
+    # its other route (config_path None, the list is read by adapt_typehints from the directory of the referrer)
+    at_dirs = ["x", "b", "run", "x/y"]
     pfail = rng.choice([0.0, 0.0, 0.05, 0.15])
     counter = [0]
 
@@ -156,11 +195,14 @@ def gen_cwd_case(rng, tier):
             # a list file: >= 2 lines (a single line is read back by YAML as a plain path, another code path);
             # half of them spelled absolutely or placed next to the referring file (inside the guard of
             # C19_relative_follows_config), the rest relatively (finding class list-file-relative)
-            d = here if rng.random() < 0.3 else rng.choice(DIRS)
+            not_yaml = rng.random() < 0.3
+            d = rng.choice(at_dirs) if not_yaml else (here if rng.random() < 0.3 else rng.choice(DIRS))
             at = fresh(d, "list", "txt")
             items = [path_node(key, d) for _ in range(n + 1)]
             items = [i["given"] for i in items if i["t"] == "path"]
             items = (items + ["missing.txt", "missing2.txt"])[:max(2, len(items))]
+            if not_yaml:
+                items = ["@at.txt"] + items[:2]
             missing = rng.random() < pfail
             given = "/B/" + at if rng.random() < 0.4 else rel_spelling(rng, at, here)
             return {"t": "listfile", "key": key, "given": given, "at": None if missing else at, "items": items}
@@ -215,7 +257,8 @@ def gen_cwd_case(rng, tier):
     top = {"given": rel_spelling(rng, at, start), "at": at, "wellformed": True}
     if entry not in ("default", "defaults_only") and rng.random() < pfail / 2:
         top["at"] = None
-    return {"k": "cwd", "entry": entry, "start": start, "dirs": DIRS, "files": files, "top": top, "tree": tree}
+    return {"k": "cwd", "entry": entry, "start": start, "dirs": DIRS, "files": files + [d + "/@at.txt" for d in at_dirs],
+            "top": top, "tree": tree}
 
 
 def generate(rng, tier):
@@ -283,7 +326,10 @@ def key_ids(case):
                 out.append("NLoad %s %s" % (g_str(n["given"]), body))
             elif t == "listfile":
                 items = ["NPath %s %s" % (g_nat(fresh("%s[%d]" % (key, i))), g_str(g)) for i, g in enumerate(n["items"])]
-                out.append("NListFile %s %s" % (g_str(n["given"]), g_list(items, "node")))
+                # the content of the list file is loadable as YAML (one folded plain scalar) unless its first line
+                # starts with a character that cannot start a YAML token
+                yaml_ok = not n["items"][0].startswith("@")
+                out.append("NListFile %s %s %s" % (g_bool(yaml_ok), g_str(n["given"]), g_list(items, "node")))
         return g_list(["(%s)" % x for x in out], "node")
 
     body = nodes(case["tree"], "mid." if case["entry"].startswith("argmid") else "")
@@ -356,7 +402,8 @@ def category(case, obs):
 
 def describe(case, obs):
     if case["k"] == "mode":
-        return {"call": "Path(%r, mode=%r)  # cwd=%s uid=%s kind=%s" % (obs["given"], case["mode"], obs["cwd"], case["uid"], case["kind"]),
+        call = "path_type(%r)(%r)" % (case["mode"], obs["given"]) if case.get("via") == "type" else "Path(%r, mode=%r)" % (obs["given"], case["mode"])
+        return {"call": "%s  # cwd=%s uid=%s kind=%s" % (call, obs["cwd"], case["uid"], case["kind"]),
                 "probed_facts": obs["facts"], "observed": obs["obs"]}
     return {"entry": case["entry"], "process_cwd": "/B/" + case["start"], "top": case["top"], "tree": case["tree"],
             "observed": {k: v for k, v in obs.items() if k != "files"}}
@@ -377,16 +424,18 @@ def shrink(case):
             if n["t"] in ("load", "inline"):
                 for b in variants(n["body"]):
                     yield ns[:i] + [dict(n, body=b)] + ns[i + 1:]
-            if n["t"] in ("inlist", "listfile") and len(n["items"]) > 1:
-                yield ns[:i] + [dict(n, items=n["items"][:1])] + ns[i + 1:]
+            # a YAML-loadable list file keeps >= 2 lines (ASSUMPTIONS: a single line takes another code path)
+            keep = 2 if n["t"] == "listfile" and not n["items"][0].startswith("@") else 1
+            if n["t"] in ("inlist", "listfile") and len(n["items"]) > keep:
+                yield ns[:i] + [dict(n, items=n["items"][:keep])] + ns[i + 1:]
 
     for t in variants(case["tree"]):
         yield dict(case, tree=t)
 
 
 def extra_coverage(tier):
-    cov = {"theorem_space": "C19_mode_exact: all mode strings (2304 valid local flag records x 70 consistent fact records, "
-                            "evaluated completely by vm_compute); C19_cwd_restored / C19_relative_follows_config: all "
+    cov = {"theorem_space": "C19_mode_exact(_any_repairs): all mode strings (2304 valid local flag records x 70 consistent "
+                            "fact records x 8 combinations of repairs, evaluated completely by vm_compute); C19_cwd_restored / C19_relative_follows_config: all "
                             "config trees of any depth (structural induction)"}
     if not CAN_DROP:
         cov["unexplored"] = ("not started as root: cannot drop to uid nobody, so all permission-bit rows were run as the "
@@ -397,19 +446,31 @@ def extra_coverage(tier):
 META = {
     "level_text": "Theorems in coq/Properties/C19.v. C19_mode_exact: for EVERY mode string the code accepts (tables "
                   "regenerated from Path._check_mode; C19_mode_language_is_documented: these are exactly the documented "
-                  "modes) and EVERY consistent answer of the file system, Path's local check accepts iff every flag of the "
-                  "mode holds, and otherwise fails with PathError — outside three narrow, listed finding classes "
-                  "(C19_*_refuted, C19_findings_exact shows nothing else hides there); the finite product is evaluated "
-                  "completely by the kernel. C19_relative_abs: relative is the spelling, absolute is absolute and is the "
-                  "spelling below cwd. C19_cwd_restored and C19_relative_follows_config: for config files nested to ANY "
-                  "depth (induction over the tree) loading restores (cwd, current_path_dir) on success and on every "
-                  "failure point, and each relative path resolves against the directory of the file that mentions it. "
-                  "Models tied to the implementation by ~40k real Path() calls per quick run (as uid nobody, so the "
-                  "permission bits count) and real nested config files loaded through four entry points.",
-    "level_note": "Trusted: Coq kernel/VM; fidelity of the hand-written models outside the exercised cases; the fixture, "
-                  "probe and printer; os.path/os.stat/os.access. URL/fsspec modes, '~user', file:// and concurrent chdir "
-                  "are outside the statement. No axioms.",
+                  "modes; C19_invalid_mode_rejected: every other string is answered with ValueError) and EVERY consistent "
+                  "answer of the file system, Path's local check accepts iff every flag of the mode holds, and otherwise "
+                  "fails with PathError - outside three narrow, listed finding classes (C19_*_refuted witnesses; "
+                  "C19_findings_exact shows that nothing else hides there). The finite product (2304 valid local flag "
+                  "records x 70 consistent fact records x 8 combinations of landed repairs) is evaluated completely by the "
+                  "kernel; C19_mode_exact_any_repairs states the result for every combination of the proposed repairs "
+                  "(fixes/C19-*.patch, modelled line by line) and C19_mode_exact_repaired is the full, unguarded statement "
+                  "for the repaired Path. C19_relative_abs: relative is the spelling, absolute is absolute and is the "
+                  "(user-expanded) spelling below cwd, for all strings. C19_cwd_restored / C19_nested_value_restores and "
+                  "C19_relative_follows_config: for config files nested to ANY depth (induction over the tree of nested "
+                  "files, list files, inline sections, path values, broken values) loading restores (cwd, "
+                  "current_path_dir) on success and at every failure point, and each relative path resolves against the "
+                  "directory of the file that mentions it - outside one listed class (relative spelling of a YAML-loadable "
+                  "list file; C19_list_file_relative_refuted), which C19_relative_follows_config_repaired removes for the "
+                  "repaired _check_type. Models tied to the implementation by ~33k real Path() calls per quick run (as "
+                  "uid nobody, so the permission bits count, next to an independent os.stat/os.access probe) and real "
+                  "nested config files loaded through six entry points, every case judged inside Coq.",
+    "level_note": "Only exercised by the correspondence, not proved: that the Gallina models follow the Python code (hand "
+                  "written; mode tables are translated), os.path.join/expanduser/normpath/dirname as re-implemented in "
+                  "Gallina, and the classification of a probed path into the 8-field fact record. Trusted: Coq kernel/VM; "
+                  "the fixture, probe and Gallina printer; os.stat/os.access/os.chdir. Outside the statement: URL/fsspec "
+                  "modes (u, s), '~user', file:// prefixes, symlinked config directories, concurrent chdir by other "
+                  "threads, single-line list files. No axioms.",
     "technique": "Rocq: kernel-evaluated finite product (forallb ... = true by vm_compute, lifted with forallb_forall to all "
-                 "mode strings) + structural induction over config trees; fail-closed translator for the mode tables; "
-                 "correspondence on a permission-aware file-system fixture judged inside Coq",
+                 "mode strings and all combinations of repairs) + structural (nested) induction over config trees with a "
+                 "bracket lemma for change_to_path_dir; fail-closed translator for the mode tables; correspondence on a "
+                 "permission-aware file-system fixture judged inside Coq",
 }
